@@ -67,7 +67,7 @@ structure UnitDecl where
 deriving Repr, Inhabited
 
 structure QuantityDecl where
-  module : Str
+  modName : Str
   name : Str
   desc : Str
   dim : List Int
@@ -93,7 +93,7 @@ structure SystemDecl where
 deriving Repr, Inhabited
 
 def findQuantity (t : List QuantityDecl) (module : Str) : Option QuantityDecl :=
-  t.find? (fun q => q.module == module)
+  t.find? (fun q => q.modName == module)
 
 def QuantityDecl.findUnit (q : QuantityDecl) (name : Str) : Option UnitDecl :=
   q.units.find? (fun u => u.name == name)
